@@ -235,7 +235,113 @@ func pktSize(delivery string) int {
 	return pkt.MaxData
 }
 
+// runMergeDriverCase: `git merge` of a text file tracked by LFS through `git lfs merge-driver`,
+// which cleans the merged text over the file holding the previous pointer.  wt = "shorter": the new
+// pointer is longer than the previous one; "longer": it is shorter (fewer size digits).
+func runMergeDriverCase(c *core.Ctx, lfsBin string, fc *filterCase, idx int) (*core.Violation, error) {
+	root := filepath.Join(c.Work, fmt.Sprintf("m%d", idx))
+	defer os.RemoveAll(root)
+	env, err := gitenv.New(root, filepath.Dir(lfsBin))
+	if err != nil {
+		return nil, err
+	}
+	repo := filepath.Join(root, "repo")
+	if err := env.InitRepo(repo, false); err != nil {
+		return nil, err
+	}
+	os.WriteFile(filepath.Join(repo, ".git", "info", "attributes"), []byte("*.bin filter=lfs diff=lfs merge=lfs -text\n"), 0o644)
+	env.Git(repo, "config", "merge.lfs.name", "LFS merge driver")
+	env.Git(repo, "config", "merge.lfs.driver", "git lfs merge-driver --ancestor %O --current %A --other %B --marker-size %L --output %A")
+	lines := func(n int, tag string) []string {
+		var l []string
+		for i := 0; i < n; i++ {
+			l = append(l, fmt.Sprintf("%s line %04d of the merged text, seed %d", tag, i, c.Seed))
+		}
+		return l
+	}
+	// base has 250 lines (~11 kB, 5 size digits).  "longer": theirs drops lines so that the merge result is
+	// < 10 000 bytes (4 digits, shorter pointer); "shorter": base is small (3-4 digits) and theirs adds lines (5 digits)
+	var base, ours, theirs []string
+	if fc.Wt == "longer" {
+		base = lines(250, "base")
+		theirs = append([]string{}, base[:120]...)
+	} else {
+		base = lines(100, "base")
+		theirs = append(append([]string{}, base...), lines(200, "added")...)
+	}
+	ours = append([]string{"changed first line on our side"}, base[1:]...)
+	join := func(l []string) []byte { return []byte(strings.Join(l, "\n") + "\n") }
+	file := filepath.Join(repo, "f.bin")
+	step := func(args ...string) error {
+		if r := env.Git(repo, args...); !r.OK() {
+			return fmt.Errorf("git %v: %s", args, r.All())
+		}
+		return nil
+	}
+	env.WriteFile(file, join(base), 0o644)
+	for _, a := range [][]string{{"add", "f.bin"}, {"commit", "-q", "-m", "base"}, {"checkout", "-q", "-b", "theirs"}} {
+		if err := step(a...); err != nil {
+			return nil, err
+		}
+	}
+	env.WriteFile(file, join(theirs), 0o644)
+	for _, a := range [][]string{{"commit", "-q", "-am", "theirs"}, {"checkout", "-q", "main"}} {
+		if err := step(a...); err != nil {
+			return nil, err
+		}
+	}
+	env.WriteFile(file, join(ours), 0o644)
+	if err := step("commit", "-q", "-am", "ours"); err != nil {
+		return nil, err
+	}
+	// the expected merge result, computed on the plain contents
+	td := filepath.Join(root, "mf")
+	os.MkdirAll(td, 0o755)
+	os.WriteFile(filepath.Join(td, "o"), join(ours), 0o644)
+	os.WriteFile(filepath.Join(td, "b"), join(base), 0o644)
+	os.WriteFile(filepath.Join(td, "t"), join(theirs), 0o644)
+	mr := env.RunIn(td, nil, nil, 0, "git", "merge-file", "-p", "o", "b", "t")
+	if mr.Code != 0 {
+		return nil, fmt.Errorf("expected merge is not clean: %s", mr.All())
+	}
+	merged := []byte(mr.Stdout)
+	r := env.RunIn(repo, nil, nil, 120*time.Second, "git", "merge", "-q", "-m", "merge", "theirs")
+	fields := map[string]string{"content": fc.Content.Name, "delivery": fc.Delivery, "frontend": fc.Frontend, "wt": fc.Wt, "branch": fc.Branch}
+	mk := func(assertion, why string, extra map[string]interface{}) *core.Violation {
+		d := map[string]interface{}{"why": why, "case": fc, "merged_len": len(merged), "merge_exit": r.Code, "merge_output": core.Tail(r.All(), 600)}
+		for k, v := range extra {
+			d[k] = v
+		}
+		return &core.Violation{Assertion: assertion, Fields: fields, Detail: d}
+	}
+	if !r.OK() {
+		return mk("clean-succeeds", "git merge through the LFS merge driver failed", nil), nil
+	}
+	blob := env.RunIn(repo, nil, nil, 0, "git", "cat-file", "blob", "HEAD:f.bin")
+	want := canonPointer(core.Sha(merged), len(merged))
+	if blob.Stdout != want {
+		return mk("pointer-names-sha256-and-length", "the merged file's blob is not the canonical pointer of the merged text",
+			map[string]interface{}{"blob": fmt.Sprintf("%.400q", blob.Stdout), "want": want}), nil
+	}
+	oid := core.Sha(merged)
+	got, _ := os.ReadFile(gitenv.LocalObjectPath(filepath.Join(repo, ".git"), oid))
+	if !bytes.Equal(got, merged) {
+		return mk("stored-object-is-the-input", "local storage does not hold the merged text under the pointer's id", nil), nil
+	}
+	os.Remove(file)
+	if rr := env.Git(repo, "checkout", "--", "f.bin"); !rr.OK() {
+		return mk("smudge-succeeds", "checkout of the merged file failed", map[string]interface{}{"stderr": core.Tail(rr.All(), 600)}), nil
+	}
+	if wtb, _ := os.ReadFile(file); !bytes.Equal(wtb, merged) {
+		return mk("smudge-returns-original", "the checked-out file differs from the merged text", nil), nil
+	}
+	return nil, nil
+}
+
 func runFilterCase(c *core.Ctx, lfsBin string, fc *filterCase, idx int) (*core.Violation, error) {
+	if fc.Frontend == "mergedriver" {
+		return runMergeDriverCase(c, lfsBin, fc, idx)
+	}
 	root := filepath.Join(c.Work, fmt.Sprintf("f%d", idx))
 	defer os.RemoveAll(root)
 	env, err := gitenv.New(root, filepath.Dir(lfsBin))
@@ -431,7 +537,7 @@ func runFilterProperty(c *core.Ctx, kind string) {
 		if err := json.Unmarshal(raw, &fc); err != nil {
 			return err
 		}
-		if fc.Content.Kind == kind || (kind == "data" && fc.Content.Name == "empty") {
+		if fc.Content.Kind == kind || (kind == "data" && (fc.Content.Name == "empty" || fc.Content.Kind == "merge")) {
 			cases = append(cases, &fc)
 			branches[fc.Branch]++
 		}
